@@ -507,6 +507,15 @@ func (h *regHarness) exec(line string) string {
 		h.st.hit("regpipe:" + r)
 		if want != (err == nil) {
 			h.oracle("C05 RegisterPipeline(%d,%d,%v,%s) returned %v, statement says success=%v", ty, pid, ids, pol, err, want)
+			// the overwrite policy's part of the rule (C07): refused by policy although nothing under this
+			// (type, id) forbids it, or accepted over a pipeline registered with DenyOverwrite
+			old, exists := h.pipes[[2]int{ty, pid}]
+			switch {
+			case r == "E_DENY" && !(exists && old.deny):
+				h.oracle("C07 RegisterPipeline(%d,%d,%s) was refused by the overwrite policy, but no pipeline with DenyOverwrite is registered under this event type and id", ty, pid, pol)
+			case err == nil && exists && old.deny:
+				h.oracle("C07 RegisterPipeline(%d,%d,%s) overwrote a pipeline registered with DenyOverwrite", ty, pid, pol)
+			}
 		}
 		if err == nil {
 			sp := &specPipe{ids: ids, deny: pol == "deny"}
@@ -901,13 +910,39 @@ func registryMain(args []string) {
 		h.diverged = false
 		h.divergedBy = nil
 		for _, op := range ops {
-			if h.diverged {
+			// after a divergence the case goes on (against the specification state, which says what
+			// should have happened): a later operation may show the damage under another property's
+			// name -- a rejected call that silently removed a pipeline shows at the next Send.  The
+			// harness's own bookkeeping may no longer fit the broker then: a panic ends the case.
+			res, crashed := func() (r string, c bool) {
+				defer func() {
+					if x := recover(); x != nil && h.diverged {
+						r, c = "harness-stopped", true
+					} else if x != nil {
+						panic(x)
+					}
+				}()
+				r = h.exec(op)
+				return r, false
+			}()
+			o.emit(op, res)
+			if crashed {
 				break
 			}
-			res := h.exec(op)
-			o.emit(op, res)
 			if op != "reset" && op != "dump" {
-				h.checkInvariants()
+				func() {
+					defer func() {
+						if x := recover(); x != nil && !h.diverged {
+							panic(x)
+						} else if x != nil {
+							crashed = true
+						}
+					}()
+					h.checkInvariants()
+				}()
+			}
+			if crashed {
+				break
 			}
 			if res == "ok" && (strings.HasPrefix(op, "regpipe") || strings.HasPrefix(op, "rpan")) || strings.HasPrefix(res, "rpan true") {
 				nontrivial = true
